@@ -8,13 +8,15 @@ For ALL limb values (any integers, not only 21-bit ones) and for EVERY function 
 Go's `>>` — i.e. whatever each of the 69 (scMulAdd) carries is — the integer Σ sᵢ·2^(21 i)
 represented by the 24 output limbs is congruent modulo ℓ to the specified function of the inputs.
 
-PARTIAL (stated as `C20_scalar_full`, checked differentially only, see meta "partial"):
-  · no int64 overflow occurs in the Go code (the model computes in unbounded `Int`);
-  · the final limbs are fully reduced (0 ≤ result < ℓ, limbs in [0, 2^21));
-  hence also the byte-level statement  leNat (scMulAdd a b c) = (a·b + c) mod ℓ.
 With the real shift (`shrI`) the load side (`load_value`), the digit range after the last carry pass, the zero
-high limbs and the byte packing (`store_value`) ARE proved and assembled in `scMulAdd_bytes` etc.: the only
-hypothesis left is the range of the top limb, 0 ≤ s11 < 2^25.
+high limbs and the byte packing (`store_value`) are proved and assembled in `scMulAdd_bytes` etc. under the single
+hypothesis 0 ≤ s11 < 2^25 on the top result limb.
+
+ROUND 2: that hypothesis, the absence of int64 overflow in every (sub)expression and full reduction below ℓ are
+now THEOREMS (Props/C20Ranges.lean, design/C20Ranges.md: verified interval abstract interpreter run by the kernel
+on the regenerated program): `C20_scalar_full` below is proved there unconditionally (`C20_scalar_full_holds`),
+likewise scMul / scAdd / scSub / scReduce (64-byte load included) and canonical results (`sc_results_canonical`).
+Still differential only: the public `kyber.Scalar` wrappers (Add/Sub/Mul/Neg/Inv/…) that call these routines.
 -/
 import DosModel.Proofs.Ed25519Bytes
 
@@ -190,7 +192,8 @@ theorem store_value (s : L24) (hd : Digits11 s) (h11 : 0 ≤ s.s11 ∧ s.s11 < 3
     (leNat (scMulAdd_store shrI s) : Int) = value12 s.s0 s.s1 s.s2 s.s3 s.s4 s.s5 s.s6 s.s7 s.s8 s.s9 s.s10 s.s11 := by
   rw [scMulAdd_store_eq]; exact pack_value s hd h11
 
-/-- the full scalar clause (not proved: needs int64-overflow freedom and full reduction) -/
+/-- the full scalar clause: byte-level, unconditional. PROVED in Props/C20Ranges.lean (`C20_scalar_full_holds`);
+in this file only the conditional form `scMulAdd_bytes` (hypothesis 0 ≤ s11 < 2^25) is available. -/
 def C20_scalar_full : Prop :=
   ∀ a b c : Bytes, a.length = 32 → b.length = 32 → c.length = 32 →
     leNat (scMulAdd shrI a b c) = (leNat a * leNat b + leNat c) % ell
